@@ -199,12 +199,23 @@ example : ∃ out, Static exT [301001, 101000, 31001, 12101] out := by
         Static.nil))
     (Static.delayed 101000 31001 [12101] _ (by decide) (by decide) (by unfold isClass31; decide) Static.nil)⟩
 
-/-- and a table whose sequence contains itself has no regulation expansion and makes the model run out of any
-fuel: the C recurses until its stack is gone (DESIGN §10: cyclic Table D) -/
-def cycT : Tables := { exT with fetchD := fun d => if d = 301001 then some { desc := 301001, members := [1001, 301001] } else none }
-example : (match createTemplate cycT 50 4 [301001] with | .error .fuel => true | _ => false) = true := by decide +kernel
-
 def refused (r : Except XErr Template) : Bool := match r with | .error .null => true | _ => false
+
+/-- and a table whose sequence contains itself (directly, or through another sequence) has no regulation
+expansion: it is refused (`bufr_tabled_is_circular`; before the repair recorded as C10-tabled-circular the
+C recursed until its stack was gone, and the model ran out of any fuel) -/
+def cycT : Tables := { exT with fetchD := fun d => if d = 301001 then some { desc := 301001, members := [1001, 301001] } else none }
+example : refused (createTemplate cycT 50 4 [301001]) = true := by decide +kernel
+def cyc2D (d : Nat) : Option EntryD :=
+  if d = 301001 then some { desc := 301001, members := [1001, 301002] }
+  else if d = 301002 then some { desc := 301002, members := [12101, 301001] } else none
+def cycT2 : Tables := { exT with fetchD := cyc2D }
+example : refused (createTemplate cycT2 50 4 [12101, 301002]) = true := by decide +kernel
+/-- overlapping replications inside a Table D sequence (closed within the sequence) are refused as well -/
+def ovlD (d : Nat) : Option EntryD :=
+  if d = 301001 then some { desc := 301001, members := [102002, 102002, 1001, 12101, 1001] } else none
+def ovlT : Tables := { exT with fetchD := ovlD }
+example : refused (createTemplate ovlT 50 4 [301001]) = true := by decide +kernel
 example : refused (createTemplate exT 100 4 [102003, 1001]) = true := by decide +kernel
 example : refused (createTemplate exT 100 4 [101001]) = true := by decide +kernel
 example : refused (createTemplate exT 100 4 [102002, 102002, 1001, 12101]) = true := by decide +kernel
